@@ -37,11 +37,14 @@ func vpMapOf(kv ...any) *ordered.MapSA {
 
 // vpGenEntry draws one entry of a step sequence.
 func vpGenEntry(depth int) (any, vpWantStep) {
-	max := 13
+	max := 14
 	if depth > 0 {
-		max = 15
+		max = 16
 	}
 	switch vpInt(0, max) {
+	case 14: // well-formed fields decoded first, then a malformed one: the fallback holds the entry as it was written
+		m := vpMapOf("command", "c", "plugins", []any{"docker#v1", vpMapOf("ecr#v2", nil)}, "env", []any{"A=1"})
+		return m, vpWantStep{kind: vpKUnknown, fallback: true, orig: m}
 	case 0:
 		s := "wait"
 		if vpBool() {
@@ -89,7 +92,7 @@ func vpGenEntry(depth int) (any, vpWantStep) {
 			return vpMapOf("group", nil, "label", "l", "steps", []any{}), vpWantStep{kind: vpKGroup}
 		}
 		return vpMapOf("command", "c", "key", nil, "id", "i", "label", nil, "name", "n"), vpWantStep{kind: vpKCommand}
-	case 14: // group with children
+	case 15: // group with children
 		n := vpInt(0, 2)
 		var kids []any
 		w := vpWantStep{kind: vpKGroup}
